@@ -456,7 +456,7 @@ pub fn run_case(idx: usize, case: &Value, o: &SemOpts) -> (Value, Option<Value>,
 
         // cost and traces of the whole iteration from start 0, both executors, both pipelines
         #[cfg(all(regress_verif, not(feature = "f-alloc")))]
-        if o.cost {
+        if o.cost || o.progs {
             let mut c: Vec<i64> = Vec::new();
             let want_trace = o.trace_every > 0 && (idx + hi) % o.trace_every == 0;
             for (name, re, eng) in [
@@ -521,6 +521,11 @@ pub fn run_case(idx: usize, case: &Value, o: &SemOpts) -> (Value, Option<Value>,
         rec.insert("api".into(), Value::Array(api));
     }
     vm.insert("bfirst".into(), Value::Array(bfirst));
+    // the engine's own step counts: a machine specification that spends its fuel where the engine finished the
+    // whole iteration in fewer steps has left the engine's behaviour
+    if o.progs {
+        vm.insert("esteps".into(), Value::Array(costs.clone()));
+    }
     if o.cost {
         rec.insert("cost".into(), Value::Array(costs));
     }
